@@ -27,6 +27,7 @@ var errLookedAtExceptions = map[string]string{
 	"E2 smtp.releaseLimits:*":               "cannot fail: the very same string was split successfully when the permit was taken (C03.R5 / C03.immut)",
 	"E2 msgpipeline.srcBlockForAddr:Split1": "the empty reverse-path is not an address: the error is deliberately ignored for it (comment at the site) and the lookup goes on with empty parts",
 	"E2 dns.CheckCNAMEAD:exchange2":         "the AAAA fallback is best effort by design: when it fails the canonical name stays empty, which the only caller (discoverTLSA) turns into the error 'no address associated with the host' – the delivery is deferred, nothing is treated as secure",
+	"E2 msgpipeline.getRcptModifiers:RewriteSender1": "the call is a probe: per-recipient modifiers may not change the sender, and the result is only used to warn when they would; the sender in use is never taken from it, so its failure changes nothing",
 	"E1 pass_table.AuthPlain:Lookup1":       "the `ok` result is tested before the error: a failed table lookup is answered as 'unknown credentials'; authentication is refused on both paths, so C14 is not affected (the reply class for a broken table is outside the listed properties)",
 }
 
@@ -368,6 +369,30 @@ func errDisciplineSeen(c *Check) {
 		}
 	})
 	keptFis := append([]*FuncInfo{}, fis...)
+	// E5 / E5b / E6 also look at what those functions call directly inside the server (the bookkeeping of a step is
+	// often one call down: getRcptModifiers for AddRcpt, updateMetadataOnDisk for tryDelivery)
+	{
+		have := map[*types.Func]bool{}
+		for _, fi := range keptFis {
+			have[fi.Obj] = true
+		}
+		for _, fi := range fis {
+			for _, call := range callsIn(fi.Decl.Body) {
+				fn := calleeFn(fi.Info(), call)
+				if fn == nil || have[fn] || fn.Pkg() == nil || !isServerPkg(fn.Pkg().Path()) {
+					continue
+				}
+				rel := strings.TrimPrefix(strings.TrimPrefix(fn.Pkg().Path(), modPath), "/")
+				if rel == "framework/log" || rel == "framework/exterrors" || strings.HasPrefix(rel, "framework/config") {
+					continue
+				}
+				if d := p.DeclOf(fn); d != nil && d.Decl.Body != nil && !strings.HasSuffix(p.Fset.Position(d.Decl.Pos()).Filename, "_test.go") {
+					have[fn] = true
+					keptFis = append(keptFis, d)
+				}
+			}
+		}
+	}
 	sort.Slice(keptFis, func(i, j int) bool { return keptFis[i].Name() < keptFis[j].Name() })
 	defer keptEffectsSeen(c, keptFis)
 	// functions that call helpers the reference tree did not have: E1–E4 look at the bodies as written, and at the
